@@ -266,6 +266,91 @@ def rule_iter_map_collect(text, ctx, where):
     return text, n
 
 
+def rule_let_chain(text, ctx, where):
+    """`if COND && let PAT = E { B }` (no else) -> `if COND { if let PAT = E { B } }`"""
+    n = 0
+    while True:
+        m = mask(text)
+        mt = re.search(r"\bif\s+", m)
+        found = None
+        for mt in re.finditer(r"\bif\s+", m):
+            b = find_top_level_brace(m, mt.end())
+            if b < 0:
+                continue
+            cond = m[mt.end():b]
+            k = cond.rfind("&& let ")
+            if k < 0:
+                k2 = re.search(r"&&\s*let\s", cond)
+                if not k2:
+                    continue
+                k = k2.start()
+            found = (mt, b, k)
+            break
+        if not found:
+            break
+        mt, b, k = found
+        e = match_delim(m, b)
+        after = m[e + 1:e + 12].lstrip()
+        if after.startswith("else"):
+            raise AnchorLost(f"{where}: let-chain with else branch")
+        cond_text = text[mt.end():b]
+        left = cond_text[:k].rstrip()
+        right = re.sub(r"^&&\s*", "", cond_text[k:]).strip()
+        body = text[b:e + 1]
+        text = text[:mt.start()] + f"if {left} {{ if {right} {body} }}" + text[e + 1:]
+        n += 1
+    return text, n
+
+
+def find_top_level_brace(m, start):
+    depth = 0
+    j = start
+    while j < len(m):
+        c = m[j]
+        if c in "([":
+            depth += 1
+        elif c in ")]":
+            depth -= 1
+        elif c == "{" and depth == 0:
+            return j
+        elif c == ";" and depth == 0:
+            return -1
+        j += 1
+    return -1
+
+
+def rule_entry_or_insert_with(text, ctx, where):
+    """`M.entry(K).or_insert_with(|| V);` (result unused) -> `{ let __k = K; if !M.contains_key(&__k) { M.insert(__k, V); } }`"""
+    n = 0
+    while True:
+        m = mask(text)
+        mt = re.search(r"\.\s*entry\s*\(", m)
+        if not mt:
+            break
+        b = mt.end() - 1
+        e = match_delim(m, b)
+        m2 = re.match(r"\s*\.\s*or_insert_with\s*\(", m[e + 1:])
+        if not m2:
+            raise AnchorLost(f"{where}: entry(..) without or_insert_with")
+        b2 = e + 1 + m2.end() - 1
+        e2 = match_delim(m, b2)
+        semi = e2 + 1
+        while semi < len(m) and m[semi].isspace():
+            semi += 1
+        if semi >= len(m) or m[semi] != ";":
+            raise AnchorLost(f"{where}: entry(..).or_insert_with(..) used as a value")
+        s0 = chain_start(m, mt.start())
+        recv = text[s0:mt.start()].strip()
+        key = text[b + 1:e].strip()
+        arg = text[b2 + 1:e2].strip()
+        if not arg.startswith("||"):
+            raise AnchorLost(f"{where}: or_insert_with with a non-closure")
+        val = arg[2:].strip()
+        text = text[:s0] + f"{{ let __k{n} = {key}; if !{recv}.contains_key(&__k{n}) {{ {recv}.insert(__k{n}, {val}); }} }}" + text[semi + 1:]
+        n += 1
+    return text, n
+
+
 def rule_opt_map_or(text, ctx, where):
     """`X.as_ref().map(F).unwrap_or(D)`  ->  `(match X.as_ref() { Some(v) => F(v), None => D })`"""
     n = 0
@@ -610,7 +695,7 @@ def rule_unreachable_partial(text, ctx, where):
     return text, n
 
 
-RULES = {"for_into_iter": rule_for_into_iter, "iter_map_collect": rule_iter_map_collect, "ok_or_else_q": rule_ok_or_else_q, "for_zip": rule_for_zip, "msg_to_string": rule_msg_to_string, "for_consume": rule_for_consume, "for_entries": rule_for_entries, "opt_map": rule_opt_map, "opt_or_else": rule_opt_or_else, "closure_inline": rule_closure_inline, "unreachable_partial": rule_unreachable_partial, "assert_partial": rule_assert_partial, "for_index": rule_for_index, "map_err_q": rule_map_err_q, "iter_any": rule_iter_any, "opt_map_or": rule_opt_map_or, "mutself": rule_mutself, "fmtmsg": rule_fmtmsg, "pubfields": rule_pubfields, "T": rule_T, "attrs": rule_attrs, "cell": rule_cell}
+RULES = {"let_chain": rule_let_chain, "entry_or_insert_with": rule_entry_or_insert_with, "for_into_iter": rule_for_into_iter, "iter_map_collect": rule_iter_map_collect, "ok_or_else_q": rule_ok_or_else_q, "for_zip": rule_for_zip, "msg_to_string": rule_msg_to_string, "for_consume": rule_for_consume, "for_entries": rule_for_entries, "opt_map": rule_opt_map, "opt_or_else": rule_opt_or_else, "closure_inline": rule_closure_inline, "unreachable_partial": rule_unreachable_partial, "assert_partial": rule_assert_partial, "for_index": rule_for_index, "map_err_q": rule_map_err_q, "iter_any": rule_iter_any, "opt_map_or": rule_opt_map_or, "mutself": rule_mutself, "fmtmsg": rule_fmtmsg, "pubfields": rule_pubfields, "T": rule_T, "attrs": rule_attrs, "cell": rule_cell}
 
 
 def apply_rules(text, rules, ctx, counts, where):
